@@ -201,7 +201,7 @@ Section Register.
       assert (Hlen1 : length (cv_h (cv m1)) = S mo)
         by (rewrite En; cbn [cv_h]; rewrite app_length, Hlen; cbn [length]; lia).
       assert (Ho1 : is_Some (cv_h (cv m1) !! o)).
-      { destruct H01 as [(_ & (_ & _ & Hk & _) & _) _].
+      { destruct H01 as ((_ & (_ & _ & Hk & _) & _) & _).
         destruct (Hk o _ (cv_h_lookup _ _ _ Ex)) as (w' & Hw' & _). eauto. }
       assert (Hn1 : cv_n (cv m) <= cv_n (cv m1)) by (rewrite En; exact Hn0).
       clearbody m1. clearbody mo.
@@ -307,5 +307,5 @@ Proof.
     apply res_RelW, RelW_CIv in HR. exact HR.
   - pose proof (run_clean K P (S n) (KCmd self (CRegister nd script c)) m (conj HI I)) as [HR _].
     fold X in HR. apply res_Rel in HR; [|rewrite Hr; discriminate].
-    destruct HR as [_ HK1]. intros o' k a s H. rewrite <- slotv_cv in H |- *. apply HK1, H.
+    destruct HR as (_ & HK1 & _). intros o' k a s H. rewrite <- slotv_cv in H |- *. apply HK1, H.
 Qed.
